@@ -42,7 +42,25 @@ Theorem sto_outlet_condition : forall ds strord ms l sb idxs x,
 Proof. exact SubbasSpec.sto_outlet_condition. Qed.
 Print Assumptions sto_outlet_condition.
 
+(* PFAFSTETTER DIGITS: every label of the Pfafstetter map, at every depth >= 1, is 0 (no outlet downstream) or a number
+   of exactly `depth` digits each of which is 1..9 -- refining a level adds 1..8 to a digit that is still 1, so there is
+   never a zero digit and never a carry into the coarser level (invariant of the work list: a queued label has digits
+   1-9 and its not yet refined positions are 1) *)
+From PF Require Import PfafDigits.
+Theorem pfaf_digits : forall ds pits sq main uparea mask depth, 1 <= depth -> forall j,
+  let v := nth j (fst (subbasins_pfafstetter ds pits sq main uparea mask depth)) 0 in
+  v = 0 \/ (0 < v < 10 ^ depth /\ forall p, 0 <= p < depth -> 1 <= (v / 10 ^ p) mod 10 <= 9).
+Proof. exact PfafDigits.pfaf_digits. Qed.
+Print Assumptions pfaf_digits.
+
 (* non-vacuity *)
 Example sto_example : topo [0;0;1;1]%nat [0;1;2;3]%nat /\
   subbasins_streamorder [0;0;1;1]%nat [0;1;2;3]%nat [2;2;1;1] 1 = ([3;3;2;1], [3;2;0]%nat).
 Proof. split; [apply check_topo_sound; vm_compute; reflexivity|vm_compute; reflexivity]. Qed.
+
+(* a network with two nested confluences: Pfafstetter codes at depth 1 and 2 (the deeper level refines the shallower) *)
+Example pfaf_example :
+  let ds := [0;0;0;1;1;2;2;3;3]%nat in let upa := [9;5;3;3;1;1;1;1;1] in
+  fst (subbasins_pfafstetter ds [0%nat] (seq 0 9) (main_upstream ds upa 0) upa None 1) = [1; 3; 2; 5; 4; 2; 2; 7; 6] /\
+  fst (subbasins_pfafstetter ds [0%nat] (seq 0 9) (main_upstream ds upa 0) upa None 2) = [11; 31; 21; 51; 41; 23; 22; 71; 61].
+Proof. vm_compute. split; reflexivity. Qed.
